@@ -227,3 +227,45 @@ func verifH_C12_url() {
 	verifAssert(*u == before, "parsed-url-argument-unchanged")
 	verifAssert(verifFrameViolations() == 0, "writes-only-call-private-memory")
 }
+
+var verifLookupTexts = []string{
+	"OCRA-1:HOTP-SHA1-7:QN08-T30S",                // well formed, not registered
+	"OCRA-1:HOTP-SHA512-10:C-QN10-PSHA1-S064-T5M", // well formed, every component, not registered
+	"OCRA-1:HOTP-SHA1-6:QN08",                     // registered
+	"OCRA-1:HOTP-SHA1-6:QX08",                     // malformed
+}
+
+// Looking a suite string up - registered, well formed but unregistered, malformed, and with an
+// arbitrary code-digits character - leaves the registry as it was: same names, same entries, same
+// answers to the same questions afterwards.
+//
+//verif:harness prop=C12 name=lookups
+//verif:cases quick text=0..4
+func verifH_C12_lookups() { verifLookups() }
+
+func verifLookups() {
+	var name string
+	if k := verifCase("text"); k < len(verifLookupTexts) {
+		name = verifLookupTexts[k]
+	} else {
+		d := verifU8("digit")
+		verifAssume(verifAnd(d >= '0', d <= '9'))
+		verifPrefer(d == '7')
+		name = "OCRA-1:HOTP-SHA256-" + string([]byte{d}) + ":QN10-T1M"
+	}
+	regBefore := verifRegistrySnapshot()
+	knownBefore := IsKnownSuite(name)
+	cfgBefore := SuiteConfigFromRaws(name)
+	verifBeginOp()
+	_, err1 := NewRawSuite(name)
+	_ = IsKnownSuite(name)
+	_ = SuiteConfigFromRaws(name)
+	_, err2 := NewRawSuite(name)
+	verifEndOp()
+	verifObserve("err", err1 == nil)
+	verifAssert((err1 == nil) == (err2 == nil), "same-question-same-answer")
+	verifAssert(verifFrameViolations() == 0, "lookups-write-nothing-shared")
+	verifAssert(verifRegistryEqual(verifRegistrySnapshot(), regBefore), "registry-unchanged-by-lookups")
+	verifAssert(IsKnownSuite(name) == knownBefore, "known-flag-unchanged-by-lookups")
+	verifAssert(SuiteConfigFromRaws(name) == cfgBefore, "registry-entry-unchanged-by-lookups")
+}
